@@ -38,8 +38,11 @@ CHECKS['C01'] = dict(
         'enumerated; the arithmetic kernels are additionally proved exact at scaled width (C03/C04). Generator clause: vectors of the real '
         'test generator (GenerateTestCasesToFile, plus hundreds of generated states for every opcode whose state is edge-sensitive: r7 '
         'displacement forms, memory-expanding forms) must satisfy the preconditions the specification states for comparing with hardware '
-        '(memory window, disabled opcodes, status-word restrictions) and execute as the specification says.',
-   technique='TLA+ instruction-set specification + TLC trace validation of single-instruction executions of the real interpreter')
+        '(memory window, disabled opcodes, status-word restrictions) and execute as the specification says. Replay clause '
+        '(specification -> implementation): TLC predicts, for a sample of those vectors, the state the repository\'s own '
+        'test_verifier compares (TvReplay.tla); the verifier built from the working tree must pass every predicted case and '
+        'fail every case of a copy with one compared field altered.',
+   technique='TLA+ instruction-set specification + TLC trace validation of single-instruction executions of the real interpreter + replay of TLC-predicted states through the repository\'s own test_verifier')
 CHECKS['C03'] = dict(
    text='The limb operators behind add/sub/compare/logic, the Z/M/E/N flags and the saturator are compared with integer arithmetic '
         'for ALL operand pairs at a scaled limb width (TLC, exhaustive) and, for add/subtract/compare, the flags and the saturator, '
